@@ -2,6 +2,7 @@
 from . import r_rank as RR
 from . import r_trigram as RT
 from . import r_state as RS
+from . import C20 as RC20
 from .common import info
 
 
@@ -16,6 +17,7 @@ def run(ctx):
     RT.only_store_add_feeds_index(ctx, "R06.d")
     RT.enumerate_indices(ctx, "R06.d")
     RR.per_record_purity(ctx, "R06.e")
+    RC20.buffer_rules(ctx, None, None, "R20.f")
     return info("R06.a: the bounded selection truncates to its limit field only directly after a sort, finishes with sort -> "
                 "truncate(limit) -> reverse before the first pop under the done flag, forwards (x, y) to the user comparator in "
                 "order; the limit is self.limit at every selection site; the search pipeline is ixs -> hit -> score -> "
